@@ -142,8 +142,9 @@ func (e *Engine) verifyFuncMode(name, kf string) (*VC, error) {
 		vc.assumed["local-assumption:"+name+"/"+c.Name+": "+c.Src] = true
 	}
 	// vacuity guard: the preconditions must be satisfiable
-	if len(reqs) > 0 {
-		o := vc.oblige(st, "cover", "requires-sat", "false", con.Pos, "preconditions are satisfiable")
+	{
+		// always present: it also guards against an inconsistent background axiom
+		o := vc.oblige(st, "cover", "requires-sat", "false", con.Pos, "background axioms and preconditions are satisfiable")
 		o.ExpectSat = true
 	}
 	perReturn := con.Flags["post-per-return"]
